@@ -28,18 +28,21 @@ DOMD = sym.fn("DOMD", sym.Ref, sym.Name, sym.EnvSort, sym.PVSort, sym.B)    # th
 
 
 def install(reg, src):
-    reg.bounded_checks.setdefault("C03", []).append({
-        "name": "jacobian", "script": "bounded_jacobian.py", "args": {"what": "jacobian"}, "timeout": 900,
-        "bound": "pool of ~120 expressions (every node kind in a few contexts, vectors of length 3, a 2x2 matrix) x 4 variable "
-                 "lists (own order, reversed, seeded permutation, superset) x 2 points; compile_jacobian for 1 and 2 expressions "
-                 "and compile_gradient compared with Richardson-extrapolated central differences of an independent evaluator",
-        "why": "QuadraticForm / MatrixSum rows, the vectorised power / unary gradients and lists of 2+ expressions are stated but "
-               "not proved (nested sums over numeric matrices, matrix operands without a denotation, fancy-indexed closures)"})
-    reg.bounded_checks.setdefault("C17", []).append({
-        "name": "hessian", "script": "bounded_jacobian.py", "args": {"what": "hessian"}, "timeout": 900,
-        "bound": "same pool, variable lists and points; compile_hessian compared with second central differences, and checked "
-                 "for symmetry",
-        "why": "compile_hessian's diagonal shortcuts and mirroring loop are not under proof"})
+    for prop_ in ("C03", "C12"):
+        reg.bounded_checks.setdefault(prop_, []).append({
+            "name": "jacobian", "script": "bounded_jacobian.py", "args": {"what": "jacobian"}, "timeout": 900,
+            "bound": "pool of ~120 expressions (every node kind in a few contexts, vectors of length 3, a 2x2 matrix) x 4 variable "
+                     "lists (own order, reversed, seeded permutation, superset) x 2 points, every Parameter of the expression set "
+                     "to a new value between compilation and the second point; compile_jacobian for 1 and 2 expressions and "
+                     "compile_gradient compared with Richardson-extrapolated central differences of an independent evaluator",
+            "why": "QuadraticForm / MatrixSum rows, the vectorised power / unary gradients and lists of 2+ expressions are stated but "
+                   "not proved (nested sums over numeric matrices, matrix operands without a denotation, fancy-indexed closures)"})
+    for prop_ in ("C17", "C12"):
+        reg.bounded_checks.setdefault(prop_, []).append({
+            "name": "hessian", "script": "bounded_jacobian.py", "args": {"what": "hessian"}, "timeout": 900,
+            "bound": "same pool, variable lists and points (Parameters updated after compilation); compile_hessian compared with "
+                     "second central differences, and checked for symmetry",
+            "why": "compile_hessian's diagonal shortcuts and mirroring loop are not under proof"})
     # ---- link DOMD to the trees the differentiator returns (definitional: the tree is a function of (e, w))
     gc0 = reg.grad_contract
 
@@ -89,7 +92,7 @@ def install(reg, src):
     reg.gradient_fn = gradient_fn
 
     # ---- compile_gradient
-    @reg.contract(f"{CP}:compile_gradient", props=["C03"], cases={"kind": ["general", "VectorPowerSum", "VectorUnarySum"]})
+    @reg.contract(f"{CP}:compile_gradient", props=["C03", "C12"], cases={"kind": ["general", "VectorPowerSum", "VectorUnarySum"]})
     def _(c):
         ip = c.ip
         sp = Spec(ip)
@@ -135,7 +138,7 @@ def install(reg, src):
                    "contract is stated and compared with finite differences by the bounded stand-in (native/bounded_jacobian.py)")
 
     def vec_grad_contract(key, cls, cases=None, known=None):
-        @reg.contract(key, props=["C03"], cases=cases or {}, bounded=VEC_BOUNDED)
+        @reg.contract(key, props=["C03", "C12"], cases=cases or {}, bounded=VEC_BOUNDED)
         def _(c):
             ip = c.ip
             sp = Spec(ip)
@@ -178,7 +181,7 @@ def install(reg, src):
     # ---- compile_jacobian: the m x n matrix of partial derivatives (proved for one and for two expressions)
     JKINDS = ["general", "VectorPowerSum", "VectorUnarySum"]
 
-    @reg.contract(f"{AD}:compile_jacobian", props=["C03", "C09", "C10", "C14"], cases={"__combos__": [{"m": 1, "kind": k_} for k_ in JKINDS]},
+    @reg.contract(f"{AD}:compile_jacobian", props=["C03", "C09", "C10", "C14", "C12"], cases={"__combos__": [{"m": 1, "kind": k_} for k_ in JKINDS]},
                   note="proved for a single expression (every call site in the library passes one); lists of several expressions "
                        "multiply the paths beyond the quick budget and are covered by the bounded stand-in only")
     def _(c):
@@ -354,7 +357,7 @@ def install(reg, src):
     def second_ok(sp, g, wj, h):
         return [z3.Implies(sp.reg(g, wj, sp.E, sp.PVX), sp.den(h, sp.E, sp.PVX) == sp.dv(g, wj, sp.E, sp.PVX)), sp.wf(h)]
 
-    @reg.contract(f"{AD}:compute_hessian", props=["C17"])
+    @reg.contract(f"{AD}:compute_hessian", props=["C17", "C12"])
     def _(c):
         ip = c.ip
         sp = Spec(ip)
